@@ -257,7 +257,16 @@ var c10BoundaryArgs = []string{"0", "1", "-1", "2", "3", "7", "63", "64", "65", 
 const c10BoundaryInts = 16
 
 // c10BoundaryCall prints a call of a registered built-in function with 0-4 boundary arguments (the declared arity is respected in 4 of 5 calls).
+// c10ArithTuples: argument tuples whose partial products or sums wrap around (two factors of 2^32, 2^62 * 2 * 2,
+// MinInt64 and -1, a zero in any place).
+var c10ArithTuples = []string{"1, 4294967296, 4294967296", "7, 4611686018427387904, 2, 2", "5, 2147483648, 2147483648, 4", "-9223372036854775808, -1", "9223372036854775807, 9223372036854775807, 2",
+	"1, 0", "0, 0", "0, 0, 5", "1, 2, 0", "-9223372036854775808, -1, -1", "3, -4294967296, 4294967296", "1, 65536, 65536, 65536, 65536", "9223372036854775807, 1", "-1, -9223372036854775808"}
+
 func c10BoundaryCall(r *rand.Rand) string {
+	if r.Intn(10) == 0 {
+		f := []string{"fn:div", "fn:mult", "fn:mod", "fn:plus", "fn:minus", "fn:float:div", "fn:float:mult", "fn:float:plus"}[r.Intn(8)]
+		return f + "(" + c10ArithTuples[r.Intn(len(c10ArithTuples))] + ")"
+	}
 	f := c10FnNames[r.Intn(len(c10FnNames))]
 	n := r.Intn(5)
 	if ar := c10FnArity[f]; r.Intn(5) != 0 {
